@@ -5,6 +5,7 @@ import LitexProofs.Packet.Arbiter
 import LitexProofs.Packet.Fair
 import LitexProofs.Packet.RoundTrip
 import LitexProofs.Packet.Bytes
+import LitexProofs.Packet.UnalignedStep
 /-
   C16 — Packet framing: headers round-trip and packets are never interleaved or torn.
 
@@ -399,30 +400,64 @@ example :
       [i 0xb2a1 false, i 0x11c3 true, i 0xe2d1 false, i 0x21f3 false, i 0x4332 false, i 0x0044 true] =
       [⟨⟨0xd111, 0xc3b2a1⟩, false, true⟩, ⟨⟨0x4443, 0x3221f3⟩, false, true⟩] := by decide
 
+/-- **packetizer_bytes, header not a multiple of the data width** (`_partial`).
+    `UnalignedCfg c`: `H % B = L ≠ 0` and `H ≥ B` (at least one whole header word) — every such data width and
+    header length.  `UOk` (the hypotheses that exclude the three findings above, cycle by cycle): (1) the
+    producer obeys the stream contract, (2) while it pauses *inside* a packet it keeps its data/last lines
+    unchanged (excludes C16-packetizer-unaligned-bubble), (3) the first beat of a packet does not carry `last`
+    (excludes C16-packetizer-unaligned-single-beat).  Nothing is assumed about `source.ready`.
+
+    Then the delivered stream — with the `B − L` padding bytes of every `last` beat masked (`maskPad`; they show
+    whatever the sink lines carry) — is `frameU accepted`: per packet the `W` header words, then the beat
+    `header residue (L bytes) ++ low B−L bytes of payload beat 0`, then for every further payload beat `j` the beat
+    `top L bytes of beat j−1 ++ low B−L bytes of beat j`, then the flush beat `top L bytes of the last beat` with
+    `last` — i.e. byte for byte `header ++ payload ++ padding`; possibly followed by header words running ahead
+    of a first beat on offer, or still missing the flush beat of the packet just accepted. -/
+theorem packetizer_bytes_unaligned_partial (c : PkCfg) (hc : UnalignedCfg c) (ins : List (In HBeat))
+    (hok : UOk c (packetizer c).init none ins) :
+    let e := packetizer c
+    let a := e.accepted e.init ins
+    let d := e.delivered e.init ins
+    d.map (maskPad c) = frameU c a ∨
+    (∃ v k, uenvRun c e.init none ins = some v ∧ v.pend = true ∧ k ≤ c.W ∧
+      d.map (maskPad c) = frameU c a ++ (hdrWords c (hdrOf c v.lines)).take k) ∨
+    (∃ x, d.map (maskPad c) ++ [flushBeat c x] = frameU c a) := by
+  intro e a d
+  have h := rel_run_uok c (uRel c) (upacketizer_step c hc) ins e.init none [] []
+    (by simp [uRel, e, packetizer, PkState.reset, uEnd, frameU, frameUAux, envAtStart]) hok
+  simp only [List.nil_append] at h
+  exact uRel_shape c _ _ _ _ h
+
+/-- Non-vacuity (dw = 16, 3-byte header `a1 b2 c3`, the configuration of the negative witnesses): the two-beat
+    packet `2211 4433` with a stalling consumer satisfies `UOk` and comes out as
+    `a1 b2 | c3 11 | 22 33 | 44 pad`, `last` on the flush beat. -/
+example :
+    let c : PkCfg := ⟨2, 3⟩
+    let i (v : Bool) (d : Nat) (l rdy : Bool) : In HBeat := ⟨v, ⟨⟨d, 0xc3b2a1⟩, false, l⟩, rdy⟩
+    let ins := [i true 0x2211 false true, i true 0x2211 false false, i true 0x2211 false true,
+                i false 0x2211 false true, i true 0x4433 true true, i false 0x4433 true true]
+    UnalignedCfg c ∧ UOk c (packetizer c).init none ins ∧
+    ((packetizer c).delivered (packetizer c).init ins).map (maskPad c) =
+      [⟨0xb2a1, false, false⟩, ⟨0x11c3, false, false⟩, ⟨0x3322, false, false⟩, ⟨0x44, false, true⟩] ∧
+    frameU c ((packetizer c).accepted (packetizer c).init ins) =
+      [⟨0xb2a1, false, false⟩, ⟨0x11c3, false, false⟩, ⟨0x3322, false, false⟩, ⟨0x44, false, true⟩] := by
+  refine ⟨⟨by decide, by decide, by decide⟩, uok_of_B _ _ _ _ (by decide), by decide, by decide⟩
+
 /-
-  _open (not counted): the residue theorems for headers that are not a multiple of the data width
-  (`H % B ≠ 0`, `H ≥ B`), under the additional hypotheses that every packet has at least two beats and that the
-  producer keeps its data/last lines unchanged while `valid = 0`:
+  _open (not counted): for headers that are not a multiple of the data width the Depacketizer and the round trip
+  are not proved:
 
-    theorem packetizer_bytes_unaligned_open :
-      bytes (delivered) = per packet:  headerBytes H ++ payloadBytes ++ (B - H % B) padding bytes
-    theorem depacketizer_bytes_unaligned_open / pkt_depkt_roundtrip_unaligned_open
+    theorem depacketizer_bytes_unaligned_open (c) (hc : UnalignedCfg c) :
+      every packet has at least W + 2 beats (excludes C16-depacketizer-residue-end) →
+      delivered = deframeU accepted        -- header = first H bytes, payload = the following whole beats
+    theorem pkt_depkt_roundtrip_unaligned_open (c) (hc : UnalignedCfg c) : UOk … →
+      delivered = annot c accepted
 
-  The unaligned machines are modelled bit-exactly (`pkUData`, `dpUData`, `sink_d`, `fsm_from_idle`) and are
+  The unaligned Depacketizer is modelled bit-exactly (`dpUData`, `dpShiftLeft`, `sink_d`, `fsm_from_idle`) and is
   covered by the exhaustive correspondence (dw = 16, H ∈ {1, 3, 5}; dw = 24/32 in the thorough tier) and by the
-  byte-stream framing monitors on the real code.
+  de-framing / round-trip monitors on the real code (test_packet's 31-byte header at dw = 32, 64, 128, eth/ip-like
+  headers, random headers).
 -/
-
-/-- **Byte layout** (aligned header): the `W` header beats, flattened to bytes lane 0 first, are the header bytes
-    `0 … H-1` of the header signal (whose fields sit where `encode_layout` says). -/
-theorem packetizer_header_bytes (c : PkCfg) (hc : AlignedCfg c) (h : Nat) :
-    beatBytes c (hdrWords c h) = toBytes c.H h := hdrWords_bytes c hc h
-
-/-- … so a framed packet reads, byte by byte: `header bytes ++ payload bytes of beat 1 ++ …`. -/
-theorem frame_bytes (c : PkCfg) (hc : AlignedCfg c) (t : Tok HBeat) (r : List (Tok HBeat)) :
-    beatBytes c (frame c (t :: r)) =
-      toBytes c.H (hdrOf c t) ++ toBytes c.B (t.data.data % 2 ^ c.dw) ++ beatBytes c (frameAux c t.last r) :=
-  frame_bytes_cons c hc t r
 
 /-- The framing functions are inverse to each other on whole packets (pure statement). -/
 theorem deframe_frame_eq (c : PkCfg) (hc : AlignedCfg c) (a : List (Tok HBeat)) :
